@@ -367,7 +367,11 @@ def episode(ctx, case, nsteps=0):
                     ctx.mismatch(f'C04|derive|{route}|unexpected-exc:{type(o).__name__}', case, f'{type(s).__name__}->{tcn}: {o!s:.100}')
                     continue
                 if o is s:
-                    ctx.ok(('derive-same-object', route, type(s).__name__), False)
+                    if type(s).__name__ in util.MUTABLE:
+                        # a derivation from a mutable object handed the object itself back: whatever was built around it shares its bits
+                        ctx.mismatch(f'C04|isolation|edge={route}|same-mutable-object-returned', case, f'{route} on a {type(s).__name__} returned the object itself')
+                    else:
+                        ctx.ok(('derive-same-object', route, type(s).__name__), False)
                     continue
                 if route == 'tobitarray':
                     e = {'obj': o, 'kind': 'bitarray', 'route': 'tobitarray', 'exp': o.to01(), 'edge': None, 'immutable': False,
